@@ -265,4 +265,12 @@ def mrun (env : Env) : MSt → List MOp → MSt × List MEv
   | st, op :: ops =>
     ((mrun env (mstep env st op).1 ops).1, (mstep env st op).2.toList ++ (mrun env (mstep env st op).1 ops).2)
 
+/-- **A re-entrant `on_threat` hook.**  The user's hook, while it runs (the blocking decision is booked at that point),
+    un-installs itself (`m.on_threat = None`, a public attribute), calls back into the membrane — the operations
+    `ops`: `m.filter(…)`, `m.learn_threat(…)`, … —, re-installs itself (`h`) and returns.  Nothing follows the hook
+    inside `filter`, so this is the state in which the outer call returns. -/
+def Membrane.reenter (env : Env) (m : Membrane) (now : Nat) (h : Option Hook) (ops : List MOp) : MSt × List MEv :=
+  match mrun env ⟨m.setHook none, now⟩ ops with
+  | (st, evs) => (⟨st.m.setHook h, st.now⟩, evs)
+
 end Operon.Gates
